@@ -127,8 +127,8 @@ CHECKS = {
         technique=E2 + "; bounded native stand-in for the iterative PAPR constraint",
     ),
     "C09": dict(
-        text="The whole real ChannelCodeModel.forward (real encoder, modulator, IdentityConstraint, channel, demodulator, decoder) is executed on a symbolic message for 8 (code, decoder) x 6 modulation pairings with (a) the ideal channel, (b) a LambdaChannel displacing every symbol by a symbolic delta within half the minimum distance - proved for the larger polyhedral set of all delta with delta.(c_j - c_i) < |c_j - c_i|^2/2, which contains the ball by the per-constellation triangle lemma (discharged separately by z3) - and (c) a LambdaChannel flipping at most t code bits per block (BPSK/QPSK component sign flips): decoded == message for ALL messages and ALL admissible displacements / flip patterns. Stage order and fold are C17; per-stage contracts C01/C02/C05/C06. Berlekamp-Massey in the chain: bounded stand-in.",
-        note="Trusted: vk engine; triangle lemma proved on the exact rational constellation values. Pairings are an enumerated grid (quick: at most 16 code bits per call). Soft-decision chains are covered through C10/C11/C15.",
+        text="The whole real ChannelCodeModel.forward (real encoder, modulator, IdentityConstraint, channel, demodulator, decoder) is executed on a symbolic message for 8 (code, decoder) x 6 modulation pairings with (a) the ideal channel, (b) a LambdaChannel displacing every symbol by a symbolic delta within half the minimum distance - proved for the larger polyhedral set of all delta with delta.(c_j - c_i) < |c_j - c_i|^2/2, which contains the ball by the per-constellation triangle lemma (discharged separately by z3) - and (c) a LambdaChannel flipping at most t code bits per block (BPSK/QPSK component sign flips): decoded == message for ALL messages and ALL admissible displacements / flip patterns. Soft-decision chains (soft demodulation with the noise variance forwarded through the pipeline into Wagner / SC min-sum / soft Reed-Muller decoders; BPSK and QPSK): ideal channel for every noise variance > 0 (symbolic), displaced symbols on a grid of variances. Stage order and fold are C17; per-stage contracts C01/C02/C05/C06. Berlekamp-Massey in the chain: bounded stand-in.",
+        note="Trusted: vk engine; triangle lemma proved on the exact rational constellation values. Pairings are an enumerated grid (quick: at most 16 code bits per call). Soft chains with displaced QPSK symbols for 8-bit codes exceed the solver budget (quadratic LLRs) and are left to C10/C11/C15.",
         design="7/C09",
         technique=E2 + " on the whole pipeline; displacement precondition linearised through a separately proved triangle lemma",
     ),
